@@ -41,7 +41,7 @@ CLAIMED["C04"] = dict(level="exploration", ref="DESIGN.md section 4 C04",
    text="Seeded direct-ptychography problems and ONE instance reused for a history of reconstruct calls (all five kernels and their aliases, upsampling 1-3, filters, sub-masks) under every batch size the public knob can produce, with MemoryError injected after j batches of pass 1 or pass 2 followed by a retry with a smaller batch (failed calls must leave the published stack untouched); every call is compared with a fresh instance run full-batch. Linearity in the stack, recombination of complementary sub-masks with aperture weights and the two analytic parallax limits (NumPy reference) ride along on the same instances and are labelled as pure-input oracles.",
    note="Trusts the fresh full-batch run of the real code as reference for clause 1 and ~20 lines of NumPy for the analytic clauses; float32 tolerances calibrated on HEAD (<= 2e-7 observed, 2e-5 demanded). Thin as a simulation target (DESIGN section 2): the schedule is the batch partition, the history is instance reuse, the fault is an allocation failure mid-stream.",
    technique="deterministic schedule simulation: batch-size knob, armed allocation failure in pass 1/2 + retry on a reused instance, fresh-instance full-batch reference, analytic NumPy oracles")
-CLAIMED[] = dict(level="exploration", ref="DESIGN.md section 4 C05",
+CLAIMED["C05"] = dict(level="exploration", ref="DESIGN.md section 4 C05",
    text="A tiny ptychography problem is built twice from one seeded configuration (object type, slices, probe modes, optimizer x lr, optimised subset, scheduler, constraints, snapshots, store, compression, I/O schedule): U runs uninterrupted (the real code is its own reference model), R receives the same reconstruct calls interleaved with interruptions - save with data under the simulated zarr loop + restart + from_file, clone, clone with an injected deepcopy failure (save/reload fallback) - incl. split at iteration 0, adjacent interruptions and interruption of a clone. Exact comparison of what the statement lists right after every interruption, tolerance comparison with U after every later call, clone independence by stepping the clone and diffing the original.",
    note="Trusts the uninterrupted twin as reference and the calibrated tolerance 1e-4 (HEAD <= 7e-7). Full batch only; raw data saved with the object; optimizer/scheduler binding are diagnostics only. No GPU: device moves are CPU->CPU.",
    technique="deterministic simulation: twin instances, seeded interruption histories (save/restart/reload under a virtual-time zarr loop, clone, injected deepcopy failure), uninterrupted-twin oracle")
